@@ -125,6 +125,20 @@ def judge_point(case):
 
     both("hand_built_curve", hand, cmp_hand)
 
+    # the same NUMBER as a mass fraction and then as a mole fraction on one object (two different physical states):
+    # the second answer must equal what a fresh object gives for it
+    pv_seq = solver.ObservedPV(membrane=mem, mixture=mix).observe(budget=BUDGET, detect=False)
+    c_same = U.Composition(p=x, type="molar")
+    core.call(pv_seq.calculate_partial_fluxes, feed_temperature=t, composition=U.Composition(p=x, type="weight"), precision=PREC, calculation_type=model, **kw)
+    s_seq, j_seq = core.call(pv_seq.calculate_partial_fluxes, feed_temperature=t, composition=c_same, precision=PREC, calculation_type=model, **kw)
+    s_fr, j_fr = core.call(solver.ObservedPV(membrane=mem, mixture=mix).observe(budget=BUDGET, detect=False).calculate_partial_fluxes,
+                           feed_temperature=t, composition=c_same, precision=PREC, calculation_type=model, **kw)
+    if s_seq == "ok" and s_fr == "ok":
+        judged += 1
+        if not all(core.bit_eq(j_seq[i], j_fr[i]) for i in (0, 1)):
+            v.append(core.viol("C07/same_number_other_basis", "mole fraction %r asked right after mass fraction %r on the same object gives %r, a fresh object %r" % (
+                x, x, (float(j_seq[0]), float(j_seq[1])), (float(j_fr[0]), float(j_fr[1])))))
+
     # a curve whose points mix both bases (first point in one basis, second in the other) against its all-mass-fraction twin
     x2h = min(x + 0.05, 0.99)
 
@@ -176,6 +190,27 @@ def judge_measurements(case):
                 v.append(core.viol("C07/measurements/" + name, "point %d: (x=%r, t=%r, p=%r) from the mass-fraction set, (x=%r, t=%r, p=%r) from the molar set" % (
                     i, a[i].x, a[i].t, a[i].p, b[i].x, b[i].t, b[i].p)))
                 break
+    # a curve whose rows alternate between the two bases, written to CSV and read back: every point is a mass fraction afterwards
+    if not v:
+        import tempfile, shutil, pathlib
+        xs_ = list(U.CURVE_XS)
+        mixed = U.DiffusionCurve(mixture=mix, membrane_name="M", feed_temperature=333.15,
+                                 feed_compositions=[U.composition(x_, "weight" if i_ % 2 == 0 else "molar", mix) for i_, x_ in enumerate(xs_)],
+                                 permeances=[(U.Permeance(value=U.law_value("lawA", 0, x_, 333.15)), U.Permeance(value=U.law_value("lawA", 1, x_, 333.15))) for x_ in xs_])
+        if mix.name in U.BUILTIN_MIXTURES and mix is getattr(U.Mixtures, mix.name, None):
+            d_ = tempfile.mkdtemp(prefix="c07_", dir="/dev/shm" if pathlib.Path("/dev/shm").is_dir() else None)
+            try:
+                pth = pathlib.Path(d_) / "mixed.csv"
+                mixed.save(pth)
+                st_l, cs_l = core.call(U.DiffusionCurveSet.load, pth)
+                if st_l == "ok":
+                    got = M.from_diffusion_curves_first(cs_l)
+                    n += len(got)
+                    if len(got) != len(xs_) or not all(eqv(got[i].x, xs_[i], 1e-9) for i in range(len(xs_))):
+                        v.append(core.viol("C07/measurements/csv_mixed_basis", "a curve with alternating mass/mole-fraction rows, saved and re-loaded, yields x = %r instead of the mass fractions %r" % (
+                            [round(float(g.x), 6) for g in got.data[:4]], xs_[:4])))
+            finally:
+                shutil.rmtree(d_, ignore_errors=True)
     # ... and again AFTER each non-ideal entry point has been given the molar set (none of them may rewrite it)
     if not v:
         mem = U.make_membrane(mix, 1e-2, 1e-4, t_ref=333.15, ea1=25000.0, ea2=60000.0, curve_sets=[sets["molar"]])
